@@ -92,20 +92,25 @@ Definition partition_ok (s : status) (pods : list pod) : bool :=
   forallb (fun tc => counts_eqb (snd tc) (live_of_task (fst tc) pods)) (st_tsc s).
 
 (* which code path handled the request (to name a finding, not to decide it) *)
-Inductive path := PathKill | PathSync | PathSyncPgPending.
+Inductive path := PathKill | PathSync | PathSyncPgPending | PathSyncDiverged.
+(* the cache's job status had drifted from the API server's before the step (other than by the version) *)
+Definition diverged (b : obs) : bool :=
+  if status_eq_dec (set_version (o_vst b) (st_version (o_st b))) (o_st b) then false else true.
 Definition path_of (sp : spec) (b : obs) (pgv : bool) (r : req) : path :=
   let vst := o_vst b in
   match fst (exec (st_phase vst) (apply_policies sp vst r)) with
-  | KSync => if pgv then PathSync else PathSyncPgPending
+  | KSync => if pgv then (if diverged b then PathSyncDiverged else PathSync) else PathSyncPgPending
   | _ => PathKill
   end.
 Definition path_eqb (x y : path) : bool :=
-  match x, y with PathKill, PathKill | PathSync, PathSync | PathSyncPgPending, PathSyncPgPending => true | _, _ => false end.
+  match x, y with
+  | PathKill, PathKill | PathSync, PathSync | PathSyncPgPending, PathSyncPgPending | PathSyncDiverged, PathSyncDiverged => true
+  | _, _ => false end.
 
 (* fresh: the controller's pod view equalled the API server's pods before the
    step; pgv: the PodGroup the lister showed was past Pending *)
 Definition law_counters (which : path) (sp : spec) (r : req) (fresh pgv : bool) (b a : obs) : bool :=
-  if fresh && negb (o_err a) && (o_wrote a || path_eqb (path_of sp b pgv r) PathSync)
+  if fresh && negb (o_err a) && (o_wrote a || path_eqb (path_of sp b pgv r) PathSync || path_eqb (path_of sp b pgv r) PathSyncDiverged)
      && path_eqb (path_of sp b pgv r) which
   then partition_ok (o_st a) (o_pods a) else true.
 
